@@ -12,6 +12,7 @@ def CFG(R, FZ):
         "C10": dict(pkg="c10", level="exploration", runs=[R(shards=(8, 16), timeout=(300, 3000)), FZ("FuzzValue", seconds=45), FZ("FuzzPackage", seconds=90), FZ("FuzzChannel", seconds=90)]),
         "C07": dict(pkg="c07", level="exploration", runs=[R(shards=(8, 16))]),
         "C11": dict(pkg="c11", level="exploration", runs=[R(shards=(8, 16))]),
+        "C14": dict(pkg="c14", level="fault_enumeration", runs=[R(shards=(8, 16))]),
         "C15": dict(pkg="c15", level="exploration", runs=[R(shards=(4, 16))]),
         "C16": dict(pkg="c16", level="exploration", runs=[R(shards=(4, 16))]),
         "C17": dict(pkg="c17", level="exploration", runs=[R(shards=(4, 16), timeout=(300, 3000)), FZ("FuzzParse", seconds=90)]),
